@@ -12,11 +12,24 @@
 //   C09_wf ops <file> <outfile>
 //       replays given operation sequences (corpus, replays) on real nodes; same output format.
 //
-//   C09_wf design <programs> <outdir> <variants def,min> <extra 0|1>
+//   C09_wf design <programs> <outdir> <variants def,min> <extra 0|1> [slacks e.g. -,0,1,3]
 //       T2: interprets design programs through the real frontend; dumps the graph after every
 //       top-level construction statement, at every pass boundary of the real post processors
 //       (hook g_verifPassHook), and (extra) after repeated Circuit::optimizeSubnet and after
 //       Circuit::shuffleNodes.  Output <outdir>/<id>.<variant>.wf
+//
+//       Every (design, variant, slack) case runs in a forked child with a time limit; a child that dies is
+//       recorded as `CRASH <case> signal=<n>` in its .wf file.  slack `-` = circuit untouched, all dumps.
+//       slack j: before every pass (at every hook boundary, and before every extra call) the node vector is
+//       made to have capacity == size + j through the public Circuit::getNodes() (shrink_to_fit / reserve), so
+//       that the (j+1)-th createNode of EVERY pass reallocates Circuit::m_nodes; only `pass` markers and the
+//       final dumps are written.
+//
+// Freed memory is observable without a sanitizer: the global operator new / delete are replaced; delete fills
+// the block with 0xDD (malloc_usable_size) and parks it in a quarantine, so that a stale read sees
+// 0xDDDDDDDDDDDDDDDD (a non-canonical address: dereferencing it faults deterministically) and a stale WRITE is
+// detected when the block leaves the quarantine (`POISON write-after-free`, abort).  Off under ASan and with
+// C09_NOPOISON=1.
 //
 // A pointer is only dereferenced after it has been found among the live objects of the circuit;
 // anything else is printed as `X` (dangling / foreign), which the checker rejects.
@@ -24,8 +37,92 @@
 #include <gatery/hlim/Subnet.h>
 #include <gatery/hlim/NodePtr.h>
 #include <gatery/hlim/supportNodes/Node_SignalTap.h>
+#include <gatery/scl/synthesisTools/IntelQuartus.h>
+#include <gatery/scl/synthesisTools/XilinxVivado.h>
+#include <gatery/frontend/Attributes.h>
 #include <unordered_set>
 #include <unordered_map>
+#include <malloc.h>
+#include <new>
+#include <atomic>
+#include <unistd.h>
+#include <fcntl.h>
+#include <sys/wait.h>
+
+// ------------------------------------------------------------------------------------------------
+// poisoning allocator
+// ------------------------------------------------------------------------------------------------
+#if defined(__SANITIZE_ADDRESS__)
+#define C09_POISON 0
+#else
+#define C09_POISON 1
+#endif
+
+namespace poison {
+	static bool enabled = false;
+	static constexpr size_t QN = 1u << 16;            // quarantine entries
+	static constexpr size_t QBYTES = 96u << 20;       // quarantine bytes
+	static void *q[QN]; static size_t qsize[QN];
+	static size_t head = 0, count = 0, bytes = 0;
+	static std::atomic_flag lock = ATOMIC_FLAG_INIT;
+	static size_t freedBlocks = 0;
+
+	static void corrupted(void *p, size_t n, size_t at) {
+		char buf[200];
+		int k = snprintf(buf, sizeof buf, "POISON write-after-free: freed block %p (%zu bytes) was modified at offset %zu\n", p, n, at);
+		if (k > 0) { ssize_t r = write(2, buf, (size_t)k); (void)r; }
+		abort();
+	}
+	static void evictOne() {
+		void *p = q[head]; size_t n = qsize[head];
+		head = (head + 1) % QN; count--; bytes -= n;
+		const unsigned char *b = (const unsigned char*)p;
+		for (size_t i = 0; i < n; i++) if (b[i] != 0xDD) corrupted(p, n, i);
+		free(p);
+	}
+	static void release(void *p) {
+		if (!p) return;
+		if (!enabled) { free(p); return; }
+		size_t n = malloc_usable_size(p);
+		memset(p, 0xDD, n);
+		while (lock.test_and_set(std::memory_order_acquire)) {}
+		freedBlocks++;
+		while (count == QN || (count && bytes + n > QBYTES)) evictOne();
+		size_t tail = (head + count) % QN;
+		q[tail] = p; qsize[tail] = n; count++; bytes += n;
+		lock.clear(std::memory_order_release);
+	}
+	// verifies (and frees) everything still parked
+	static void drain() {
+		while (lock.test_and_set(std::memory_order_acquire)) {}
+		while (count) evictOne();
+		lock.clear(std::memory_order_release);
+	}
+}
+
+#if C09_POISON
+void *operator new(std::size_t n) { void *p = malloc(n ? n : 1); if (!p) throw std::bad_alloc(); return p; }
+void *operator new[](std::size_t n) { void *p = malloc(n ? n : 1); if (!p) throw std::bad_alloc(); return p; }
+void *operator new(std::size_t n, const std::nothrow_t &) noexcept { return malloc(n ? n : 1); }
+void *operator new[](std::size_t n, const std::nothrow_t &) noexcept { return malloc(n ? n : 1); }
+static void *alignedNew(std::size_t n, std::align_val_t a) { void *p = nullptr; if (posix_memalign(&p, std::max((size_t)a, sizeof(void*)), n ? n : 1)) throw std::bad_alloc(); return p; }
+void *operator new(std::size_t n, std::align_val_t a) { return alignedNew(n, a); }
+void *operator new[](std::size_t n, std::align_val_t a) { return alignedNew(n, a); }
+void *operator new(std::size_t n, std::align_val_t a, const std::nothrow_t &) noexcept { void *p = nullptr; return posix_memalign(&p, std::max((size_t)a, sizeof(void*)), n ? n : 1) ? nullptr : p; }
+void *operator new[](std::size_t n, std::align_val_t a, const std::nothrow_t &) noexcept { void *p = nullptr; return posix_memalign(&p, std::max((size_t)a, sizeof(void*)), n ? n : 1) ? nullptr : p; }
+void operator delete(void *p) noexcept { poison::release(p); }
+void operator delete[](void *p) noexcept { poison::release(p); }
+void operator delete(void *p, std::size_t) noexcept { poison::release(p); }
+void operator delete[](void *p, std::size_t) noexcept { poison::release(p); }
+void operator delete(void *p, const std::nothrow_t &) noexcept { poison::release(p); }
+void operator delete[](void *p, const std::nothrow_t &) noexcept { poison::release(p); }
+void operator delete(void *p, std::align_val_t) noexcept { poison::release(p); }
+void operator delete[](void *p, std::align_val_t) noexcept { poison::release(p); }
+void operator delete(void *p, std::size_t, std::align_val_t) noexcept { poison::release(p); }
+void operator delete[](void *p, std::size_t, std::align_val_t) noexcept { poison::release(p); }
+void operator delete(void *p, std::align_val_t, const std::nothrow_t &) noexcept { poison::release(p); }
+void operator delete[](void *p, std::align_val_t, const std::nothrow_t &) noexcept { poison::release(p); }
+#endif
 
 using namespace gtry;
 using namespace gtry::hlim;
@@ -440,65 +537,125 @@ static int runOps(const std::string &infile, const std::string &outfile) {
 // ------------------------------------------------------------------------------------------------
 // T2: designs
 // ------------------------------------------------------------------------------------------------
-static int runDesigns(const std::string &progfile, const std::string &outdir, const std::string &variants, bool extra) {
+// design programs plus: pathattr A B   (frontend pathAttribute: a Node_PathAttributes for the synthesis tool passes)
+struct Interp9 : public nd::Interp {
+	void stmt(const std::vector<std::string> &t) override {
+		if (t[0] == "pathattr") {
+			nd::Val &a = get(t.at(1)); nd::Val &b = get(t.at(2));
+			PathAttributes pa; pa.falsePath = true;
+			ElementarySignal &sa = a.isBit() ? (ElementarySignal&)a.b() : (ElementarySignal&)a.u();
+			ElementarySignal &sb = b.isBit() ? (ElementarySignal&)b.b() : (ElementarySignal&)b.u();
+			pathAttribute(sa, sb, pa);
+			return;
+		}
+		nd::Interp::stmt(t);
+	}
+};
+
+// capacity == size + slack, through the public accessor
+static void tighten(Circuit &c, int slack) {
+	if (slack < 0) return;
+	auto &v = c.getNodes();
+	v.shrink_to_fit();
+	if (slack > 0) v.reserve(v.size() + (size_t)slack);
+}
+
+static void runCase(const nd::Program &prog, const std::string &v, int slack, const std::string &tag, const std::string &file, bool extra) {
+	std::ofstream out(file);
+	const bool full = slack < 0;
+	size_t boundary = 0;
+	auto dump = [&](Circuit &c, const std::string &what) {
+		out << "dump " << tag << " " << boundary++ << " " << what << "\n";
+		dumpGraph(c, out, true);
+		out << "end" << std::endl;
+	};
+	auto mark = [&](Circuit &c, const std::string &what) {
+		if (full) dump(c, what); else out << "pass " << tag << " " << boundary++ << " " << what << " nodes=" << c.getNodes().size() << " cap=" << c.getNodes().capacity() << std::endl;
+	};
+	try {
+		DesignScope design;
+		gtry::Clock clock({ .absoluteFrequency = 100'000'000 });
+		ClockScope cs(clock);
+		Interp9 in;
+		// top-level statements one by one: a dump after every construction step
+		size_t pc = 0;
+		while (pc < prog.stmts.size()) {
+			const auto &t = prog.stmts[pc];
+			std::string what = "construct:" + t[0];
+			if (t[0] == "if") { pc++; in.ifchain(prog, pc, t[1], 0); }
+			else { in.stmt(t); pc++; }
+			if (full && v == "def") dump(design.getCircuit(), what);   // identical for both variants: dump once
+		}
+		if (in.dropAll) in.b.vars.clear();
+		dump(design.getCircuit(), "construct:done");
+		hlim::g_verifPassHook = [&](hlim::Circuit &c, const char *name) { mark(c, name); tighten(c, slack); };
+		tighten(design.getCircuit(), slack);
+		if (v == "def") design.postprocess();
+		else design.getCircuit().postprocess(hlim::MinimalPostprocessing{});
+		hlim::g_verifPassHook = nullptr;
+		dump(design.getCircuit(), "postprocess:done");
+		if (extra) {
+			auto &c = design.getCircuit();
+			// what the VHDL export does first when a synthesis tool is targeted (SynthesisTool::prepareCircuit is public)
+			{ tighten(c, slack); out << "pass " << tag << " " << boundary << " enter:IntelQuartus.prepareCircuit" << std::endl; scl::IntelQuartus q; q.prepareCircuit(c); dump(c, "extra:IntelQuartus.prepareCircuit"); }
+			{ tighten(c, slack); out << "pass " << tag << " " << boundary << " enter:XilinxVivado.prepareCircuit" << std::endl; scl::XilinxVivado x; x.prepareCircuit(c); dump(c, "extra:XilinxVivado.prepareCircuit"); }
+			for (int k = 0; k < 2; k++) { tighten(c, slack); Subnet all = Subnet::all(c); c.optimizeSubnet(all); dump(c, "extra:optimizeSubnet#" + std::to_string(k)); }
+			c.shuffleNodes(); dump(c, "extra:shuffleNodes");
+			{ tighten(c, slack); Subnet all = Subnet::all(c); c.optimizeSubnet(all); dump(c, "extra:optimizeSubnet-after-shuffle"); }
+		}
+		out << "DONE " << tag << std::endl;
+	} catch (const std::exception &e) {
+		hlim::g_verifPassHook = nullptr;
+		std::string msg = e.what(); for (auto &ch : msg) if (ch == '\n') ch = ' ';
+		out << "SKIP " << tag << " " << msg.substr(0, 300) << std::endl;
+	}
+	out.flush();
+}
+
+static int runDesigns(const std::string &progfile, const std::string &outdir, const std::string &variants, bool extra, const std::string &slacks) {
 	std::ifstream pin(progfile);
 	auto programs = nd::readPrograms(pin);
-	size_t done = 0;
+	std::vector<int> sl;
+	{ std::istringstream ss(slacks); std::string t; while (std::getline(ss, t, ',')) sl.push_back(t == "-" ? -1 : std::stoi(t)); }
+	size_t done = 0, crashed = 0;
+	const char *tmo = getenv("C09_CASE_TIMEOUT");
+	unsigned caseTimeout = tmo ? (unsigned)atoi(tmo) : 30;
 	for (auto &prog : programs) {
 		for (std::string v : { "def", "min" }) {
 			if (variants.find(v) == std::string::npos) continue;
-			std::ofstream out(outdir + "/" + prog.id + "." + v + ".wf");
-			size_t boundary = 0;
-			auto dump = [&](Circuit &c, const std::string &what) {
-				out << "dump " << prog.id << "." << v << " " << boundary++ << " " << what << "\n";
-				dumpGraph(c, out, true);
-				out << "end" << std::endl;
-			};
-			try {
-				DesignScope design;
-				gtry::Clock clock({ .absoluteFrequency = 100'000'000 });
-				ClockScope cs(clock);
-				nd::Interp in;
-				// top-level statements one by one: a dump after every construction step
-				size_t pc = 0;
-				while (pc < prog.stmts.size()) {
-					const auto &t = prog.stmts[pc];
-					std::string what = "construct:" + t[0];
-					if (t[0] == "if") { pc++; in.ifchain(prog, pc, t[1], 0); }
-					else { in.stmt(t); pc++; }
-					if (v == "def") dump(design.getCircuit(), what);   // identical for both variants: dump once
+			for (int slack : sl) {
+				std::string tag = prog.id + "." + v + (slack < 0 ? std::string() : ".s" + std::to_string(slack));
+				std::string file = outdir + "/" + tag + ".wf";
+				std::cout.flush(); std::cerr.flush();
+				pid_t pid = fork();
+				if (pid == 0) {
+					alarm(caseTimeout);
+					runCase(prog, v, slack, tag, file, extra);
+					poison::drain();          // a stale write is reported even when nothing read the block again
+					_exit(0);
 				}
-				if (in.dropAll) in.b.vars.clear();
-				dump(design.getCircuit(), "construct:done");
-				hlim::g_verifPassHook = [&](hlim::Circuit &c, const char *name) { dump(c, name); };
-				if (v == "def") design.postprocess();
-				else design.getCircuit().postprocess(hlim::MinimalPostprocessing{});
-				hlim::g_verifPassHook = nullptr;
-				dump(design.getCircuit(), "postprocess:done");
-				if (extra) {
-					auto &c = design.getCircuit();
-					for (int k = 0; k < 2; k++) { Subnet all = Subnet::all(c); c.optimizeSubnet(all); dump(c, "extra:optimizeSubnet#" + std::to_string(k)); }
-					c.shuffleNodes(); dump(c, "extra:shuffleNodes");
-					{ Subnet all = Subnet::all(c); c.optimizeSubnet(all); dump(c, "extra:optimizeSubnet-after-shuffle"); }
-				}
-				done++;
-			} catch (const std::exception &e) {
-				hlim::g_verifPassHook = nullptr;
-				std::string msg = e.what(); for (auto &ch : msg) if (ch == '\n') ch = ' ';
-				out << "SKIP " << prog.id << "." << v << " " << msg.substr(0, 300) << "\n";
+				int st = 0;
+				if (pid < 0 || waitpid(pid, &st, 0) < 0) { std::cerr << "fork/waitpid failed\n"; return 3; }
+				if (WIFSIGNALED(st) || (WIFEXITED(st) && WEXITSTATUS(st) != 0)) {
+					crashed++;
+					std::ofstream app(file, std::ios::app);
+					if (WIFSIGNALED(st)) app << "\nCRASH " << tag << " signal=" << WTERMSIG(st) << "\n";
+					else app << "\nCRASH " << tag << " exit=" << WEXITSTATUS(st) << "\n";
+				} else done++;
 			}
 		}
 	}
-	std::cerr << "built " << done << " design variants\n";
+	std::cerr << "built " << done << " design cases, " << crashed << " crashed\n";
 	return 0;
 }
 
 int main(int argc, char **argv) {
 	if (argc < 2) { std::cerr << "usage\n"; return 2; }
 	std::string mode = argv[1];
+	poison::enabled = C09_POISON && getenv("C09_NOPOISON") == nullptr;
 	if (mode == "nodeio" && argc >= 5) return runNodeIO(std::stoull(argv[2]), std::stoull(argv[3]), argv[4]);
 	if (mode == "ops" && argc >= 4) return runOps(argv[2], argv[3]);
-	if (mode == "design" && argc >= 6) return runDesigns(argv[2], argv[3], argv[4], atoi(argv[5]));
+	if (mode == "design" && argc >= 6) return runDesigns(argv[2], argv[3], argv[4], atoi(argv[5]), argc >= 7 ? argv[6] : "-");
 	std::cerr << "usage\n";
 	return 2;
 }
